@@ -29,7 +29,7 @@ Definition env_w (x : N) : list N := [0%N; N.succ x].
 Lemma env_w_sound : forall x y, ov_w x y = true -> exists p, In p (env_w x) /\ In p (env_w y).
 Proof. intros x y _. exists 0%N. simpl. auto. Qed.
 
-Definition R (l : list (string * Z)) (o : option N) : rec := mkRec l o.
+Definition R (l : list (string * Z)) (o : option N) : rec := mkRec l o None.
 Definition h_base : list op :=
   [ mkOp OInsert "instrument" (R [("instrument", 1%Z)] None);
     mkOp OInsert "skymap" (R [("skymap", 1%Z)] None);
